@@ -80,7 +80,7 @@ func c19groups(n, ln int, variant int) (res [][]int, isErr bool, note string) {
 		}
 	}()
 	var under interface{}
-	switch variant % 5 {
+	switch variant % 7 {
 	case 0:
 		s := make([]int, ln)
 		for i := range s {
@@ -111,9 +111,20 @@ func c19groups(n, ln int, variant int) (res [][]int, isErr bool, note string) {
 			s[i] = i
 		}
 		under = &s
+	case 5, 6:
+		// an array, by value (5) and behind a pointer (6)
+		a := reflect.New(reflect.ArrayOf(ln, reflect.TypeOf(0)))
+		for i := 0; i < ln; i++ {
+			a.Elem().Index(i).SetInt(int64(i))
+		}
+		if variant%7 == 5 {
+			under = a.Elem().Interface()
+		} else {
+			under = a.Interface()
+		}
 	}
 	var next func() interface{}
-	if variant >= 5 {
+	if variant >= 7 {
 		g, err := plush.GroupByHelper(n, under)
 		if err != nil {
 			return nil, true, ""
@@ -162,7 +173,7 @@ func init() {
 		shardPrelude["c19l"] = shardPrelude["c19r"]
 		shardCheck["c19l"] = "check_c19l"
 		e.perShard = 1500
-		e.rep.Rule = "range/between/until: all a,b,n in [-8,8] plus the int extremes (minint, minint+1, maxint-1, maxint) crossed with small values, cap 64 values per iterator; several iterators alive at once and polled in random interleavings, also after exhaustion, directly and through nested template loops; groupBy: all slice lengths 0..40 x group counts -1..12 in both shipped implementations over 5 element/pointer variants; len over strings/slices/arrays/maps/pointers; non-trivial = yields at least one element or one group; distinct by (helper,args)"
+		e.rep.Rule = "range/between/until: all a,b,n in [-8,8] plus the int extremes (minint, minint+1, maxint-1, maxint) crossed with small values, cap 64 values per iterator; several iterators alive at once and polled in random interleavings, also after exhaustion, directly and through nested template loops; groupBy: all slice lengths 0..40 x group counts -1..12 in both shipped implementations over 7 element / pointer / array variants; len over strings/slices/arrays/maps/pointers; non-trivial = yields at least one element or one group; distinct by (helper,args)"
 		ext := []int{math.MinInt, math.MinInt + 1, math.MinInt + 2, math.MaxInt - 2, math.MaxInt - 1, math.MaxInt}
 		vals := []int{}
 		for i := -8; i <= 8; i++ {
@@ -313,7 +324,7 @@ func init() {
 			for n := -1; n <= maxN; n++ {
 				var first [][]int
 				var firstErr bool
-				for variant := 0; variant < 10; variant++ {
+				for variant := 0; variant < 14; variant++ {
 					gs, isErr, note := c19groups(n, ln, variant)
 					e.rep.Evaluations++
 					e.Count("groupBy")
